@@ -67,6 +67,7 @@ var (
 	flagKeys    = flag.Bool("keys-only", false, "child mode: print violated keys as JSON for -prop under -goos/-cg")
 	flagCG      = flag.String("cg", "vta", "call graph used for reachability: vta|cha")
 	flagNoSelf  = flag.Bool("no-selftest", false, "skip rule self-validation variants")
+	flagAll     = flag.Bool("all", false, "development aid: load once, run every rule, print new violations per property (no evidence, no self-validation)")
 )
 
 func main() {
@@ -81,6 +82,8 @@ func main() {
 			}
 		}()
 		switch {
+		case *flagAll:
+			code = runAll()
 		case *flagVariant != "":
 			code = runVariant(*flagVariant)
 		case *flagReplay != "":
@@ -465,5 +468,49 @@ func runReplay(path string) int {
 		}
 	}
 	fmt.Printf("replay %s: obligation %s|%s is not violated on the current tree\n", path, rp.Rule, rp.Key)
+	return 0
+}
+
+// runAll: one load, every rule, violations grouped by property (known findings filtered).
+func runAll() int {
+	known, err := loadKnown(filepath.Join(*flagVerif, "known_findings.json"))
+	if err != nil {
+		fmt.Fprintln(os.Stderr, err)
+		return 2
+	}
+	p := loadMain(nil, *flagGOOS)
+	cache := map[string]*RuleResult{}
+	var propIDs []string
+	for id := range props {
+		propIDs = append(propIDs, id)
+	}
+	sort.Strings(propIDs)
+	total := 0
+	for _, id := range propIDs {
+		var fired []string
+		for _, r := range ruleList(id) {
+			rr := cache[r.ID]
+			if rr == nil {
+				rr = runRule(p, r)
+				cache[r.ID] = rr
+			}
+			for _, o := range rr.Obligations {
+				if (o.Status == Violated || o.Status == Missing) && known.match(id, o) == nil {
+					fired = append(fired, fmt.Sprintf("%s %s @%s", o.Rule, o.Key, o.Pos))
+				}
+			}
+		}
+		if len(fired) > 0 {
+			total += len(fired)
+			fmt.Printf("FIRED %s (%d):\n", id, len(fired))
+			for _, f := range fired {
+				fmt.Printf("    %s\n", f)
+			}
+		}
+	}
+	fmt.Printf("ALL: %d properties, %d rules, %d new violations\n", len(propIDs), len(cache), total)
+	if total > 0 {
+		return 1
+	}
 	return 0
 }
